@@ -647,6 +647,8 @@ func cmdPure(args []string) error {
 			recs = append(recs, genCreateValidate(r, n)...)
 		case "params":
 			recs = append(recs, genParamsValidate(r, n)...)
+		case "convert":
+			recs = append(recs, genConvert(r, n)...)
 		default:
 			return fmt.Errorf("unknown kind %q", k)
 		}
